@@ -344,7 +344,15 @@ func (s *vfC06Sys) observe(m *vfC06State, conns []string) (string, string, any, 
 		}
 	}
 	if vfh.Canon(pub) != vfh.Canon(m.Pub) && !(len(pub) == 0 && len(m.Pub) == 0) {
-		return "L2:published-events", "PeerConnectednessChanged sequence differs from the model", m.Pub, pub
+		// The schedule is the model's, so the published sequence is determined - except that the statement
+		// PERMITS, not requires, the repeated NotConnected that announces a connection which vanished before it
+		// was announced: the real sequence must be the model's with some of ITS repeated-NotConnected entries
+		// left out.  Anything else (an extra event, a repeated NotConnected the model has no reason for, another
+		// order) is an observable failure.
+		if !vfC06PubAllowed(m.Pub, pub) {
+			return "connectedness-events-not-allowed", "PeerConnectednessChanged sequence cannot be obtained from the model's by leaving out permitted repeated NotConnected events", m.Pub, pub
+		}
+		return "L2:published-events", "PeerConnectednessChanged sequence differs from the model (permitted repeated NotConnected left out)", m.Pub, pub
 	}
 	// Close must not return while a callback is running or events are queued
 	inflight := false
@@ -508,6 +516,28 @@ func (s *vfC06Sys) settle(conns []string) {
 		}
 	}
 	synctest.Wait()
+}
+
+// vfC06PubAllowed: real == model minus some of the model's repeated-NotConnected entries.
+func vfC06PubAllowed(model, real [][]string) bool {
+	last := map[string]string{}
+	j := 0
+	for _, e := range model {
+		prev, ok := last[e[0]]
+		if !ok {
+			prev = "N"
+		}
+		last[e[0]] = e[1]
+		if j < len(real) && real[j][0] == e[0] && real[j][1] == e[1] {
+			j++
+			continue
+		}
+		if e[1] == "N" && prev == "N" {
+			continue // a permitted repeated NotConnected the real emitter did not publish
+		}
+		return false
+	}
+	return j == len(real)
 }
 
 func (s *vfC06Sys) teardown() {
